@@ -37,7 +37,7 @@ def _valid_date(ctx, y, m, d):
     ctx.assume(S.valid_ymd(y, m, d))
 
 
-def h_diff(kind, span, y2c=None, dy=None, micro=True, md2=None):
+def h_diff(kind, span, y2c=None, dy=None, micro=True, md2=None, sameday=False):
     """kind: 'date' | 'datetime' | 'mixed' | 'aware'.  span: None = years 1..9999 independently, or an int =
     |y1 - y2| <= span.  y2c: pin dt2's year to this value and dt1's year per path (y1 - y2 in -span..span);
     months, days and times stay symbolic."""
@@ -74,6 +74,10 @@ def h_diff(kind, span, y2c=None, dy=None, micro=True, md2=None):
             ctx.assume(m2 == md2[0])
             ctx.assume(d2 == md2[1])
             m2, d2 = md2
+        if sameday:                   # both operands on the pinned day: only the times (incl. microseconds) differ
+            ctx.assume(m1 == m2)
+            ctx.assume(d1 == d2)
+            m1, d1 = m2, d2
         _valid_date(ctx, y1, m1, d1)
         _valid_date(ctx, y2, m2, d2)
         if span is not None:
@@ -171,6 +175,9 @@ def cells(tier):
                 elif q and (y != 2024 or dy != 0):
                     continue
                 else:
+                    if q:
+                        cs.append(Cell(M, "h_diff", dict(kind=kind, span=2, y2c=y, dy=dy, micro=True, md2=[3, 15], sameday=True),
+                                       budget_s=280, per_path_s=30))
                     for md in (((1, 31), (2, 29)) if q else ((1, 31), (2, 28), (2, 29), (3, 15), (12, 31), (1, 1))):
                         if md == (2, 29) and not ((y % 4 == 0 and y % 100 != 0) or y % 400 == 0):
                             continue
